@@ -590,13 +590,15 @@ Definition tight_kind (b : block) : bool :=
   | _ => false
   end.
 
-(* first child of a list item: not indented code (5.2 rule 2 changes the indentation arithmetic), not
-   a thematic break made of * or - (the line would be a thematic break or a setext underline itself,
-   4.1 precedence); a task item begins with a paragraph (GFM 5.3) *)
+(* first child of a list item: not a thematic break made of * or - (the line would be a thematic break or a
+   setext underline itself, 4.1 precedence); a task item begins with a paragraph (GFM 5.3).  Indented code
+   first is canonical (5.2 rule 2): the writer puts exactly one space after the marker, then the four
+   spaces of the code line, and indents the continuation lines by marker width + 1 — the spelling rule 2
+   prescribes (`-     code`, `1.     code`); not in a task item *)
 Definition item_first_ok (task : option bool) (bs : list block) : bool :=
   match bs with
   | [] => false                                    (* empty items excluded *)
-  | BIndent _ :: _ => false
+  | BIndent _ :: _ => match task with None => true | _ => false end
   | BHr c _ _ :: _ => beqb c x5f && match task with None => true | _ => false end
   | b :: _ => match task with Some _ => is_para b | None => true end
   end.
